@@ -179,6 +179,12 @@ func (t *Table) addGlobalIndex(gsiInput *types.GlobalSecondaryIndex) error {
 		return err
 	}
 
+	// index the items that are already stored in the table; as in DynamoDB's
+	// backfill, items that do not fit the index key schema are left out
+	for key, item := range t.Data {
+		_ = i.putData(key, item)
+	}
+
 	t.Indexes[*gsiInput.IndexName] = i
 
 	return nil
